@@ -135,3 +135,75 @@ pub fn fileio(sink: &mut Sink, seed: u64, thorough: bool, behaviours: &str) {
     }
     let _ = std::fs::remove_dir_all(&dir);
 }
+
+/// One to_file call prepared for a concurrent run: path, expected bytes, and the closure that performs it
+struct Prepared { tag: String, renderer: &'static str, fault: String, pre: String, path: String, expect: Vec<u8>, regular: bool }
+fn prepare(dir: &Path, qr: &QRCode, prog: &[Call], renderer: &'static str, fault: &str, pre: &str, name: &str, tag: String) -> Option<Prepared> {
+    let ext = if renderer == "svg" { "svg" } else { "png" };
+    let regular = fault == "none";
+    let path = if regular { dir.join(name).to_string_lossy().to_string() } else { fault_path(dir, fault, ext)? };
+    let expect: Vec<u8> = if renderer == "svg" { svg_builder(prog).to_str(qr).into_bytes() } else { image_builder(prog).to_bytes(qr).ok()? };
+    if regular {
+        let _ = std::fs::remove_file(&path);
+        match pre { "shorter" => { let _ = std::fs::write(&path, vec![b'#'; (expect.len() / 3).max(1)]); } "longer" => { let _ = std::fs::write(&path, vec![b'#'; expect.len() * 2 + 100]); } _ => {} }
+    }
+    Some(Prepared { tag, renderer, fault: fault.to_string(), pre: pre.to_string(), path, expect, regular })
+}
+/// Runs the prepared calls at once (one thread each, released together by a barrier) and reports one FileOp event per call
+fn run_together(sink: &mut Sink, qr: &QRCode, prog: &[Call], calls: Vec<Prepared>) {
+    let barrier = std::sync::Arc::new(std::sync::Barrier::new(calls.len()));
+    let handles: Vec<_> = calls.iter().map(|c| {
+        let (q, p, pa, rd, b) = (qr.clone(), prog.to_vec(), c.path.clone(), c.renderer, barrier.clone());
+        std::thread::spawn(move || {
+            b.wait();
+            std::panic::catch_unwind(std::panic::AssertUnwindSafe(|| {
+                if rd == "svg" { svg_builder(&p).to_file(&q, &pa).map_err(|e| format!("{:?}", e)) } else { image_builder(&p).to_file(&q, &pa).map_err(|e| format!("{:?}", e)) }
+            }))
+        })
+    }).collect();
+    let results: Vec<_> = handles.into_iter().map(|h| h.join()).collect();
+    for (c, res) in calls.iter().zip(results) {
+        let (ret, msg) = match res { Ok(Ok(Ok(()))) => ("Ok", String::new()), Ok(Ok(Err(m))) => ("Err", m), _ => ("Panic", "panic".to_string()) };
+        let (class, k) = classify(&c.path, &c.expect, c.regular);
+        let msg: String = msg.chars().filter(|ch| ch.is_ascii() && *ch != '"' && *ch != '\\').take(100).collect();
+        let id = sink.id();
+        sink.emit(&json!({"ev": "FileOp", "id": id, "tag": c.tag, "renderer": c.renderer, "fault": c.fault, "len": c.expect.len(), "limit": -1, "pre": c.pre,
+                          "ret": ret, "msg": msg, "file": class, "k": k}));
+    }
+}
+/// C19 under concurrency: every pair of behaviours exported by TLC from FileIO2.tla (two calls in flight on two different paths of one
+/// directory, same stem or not) on two real threads; then many rounds of four simultaneous plain writes (same stem with two
+/// extensions, and another stem) to give a race the chance to show.  Each call is judged like a lone call: independence.
+pub fn fileconc(sink: &mut Sink, seed: u64, thorough: bool, behaviours: &str) {
+    let dir = scratch();
+    let beh: Vec<Value> = std::fs::read_to_string(behaviours).unwrap_or_default().lines().filter_map(|l| serde_json::from_str(l).ok()).collect();
+    let qr = qr_of(6, seed);
+    let prog: Vec<Call> = vec![Call::Margin(2), Call::Shape(1)];
+    for (i, b) in beh.iter().enumerate() {
+        let d = dir.join(format!("pair{i}"));
+        let _ = std::fs::create_dir_all(&d);
+        let same = b["rel"].as_str().unwrap_or("") == "samestem";
+        let (r1, r2): (&'static str, &'static str) = if i % 3 == 2 { ("svg", "svg") } else { ("svg", "png") };
+        let (n1, n2) = if same { ("ticket.svg".to_string(), if r2 == "png" { "ticket.png".to_string() } else { "ticket.xml".to_string() }) } else { ("first.svg".to_string(), format!("second.{}", if r2 == "png" { "png" } else { "svg" })) };
+        let c1 = prepare(&d, &qr, &prog, r1, b["f1"].as_str().unwrap_or("none"), b["p1"].as_str().unwrap_or("absent"), &n1, format!("fileconc:{i}:1"));
+        let c2 = prepare(&d, &qr, &prog, r2, b["f2"].as_str().unwrap_or("none"), b["p2"].as_str().unwrap_or("absent"), &n2, format!("fileconc:{i}:2"));
+        match (c1, c2) {
+            (Some(a), Some(b2)) => run_together(sink, &qr, &prog, vec![a, b2]),
+            _ => { let id = sink.id(); sink.emit(&json!({"ev": "FileSkip", "id": id, "tag": format!("fileconc:{i}:skip"), "fault": "unavailable"})); }
+        }
+        let _ = std::fs::remove_dir_all(&d);
+    }
+    // race soak: large renderings so that the calls really overlap
+    let big = qr_of(if thorough { 30 } else { 18 }, seed);
+    let rounds = if thorough { 400 } else { 60 };
+    for i in 0..rounds {
+        let d = dir.join(format!("race{i}"));
+        let _ = std::fs::create_dir_all(&d);
+        let pre = ["absent", "shorter", "longer"][i % 3];
+        let calls: Vec<Prepared> = [("svg", "ticket.svg"), ("png", "ticket.png"), ("svg", "ticket.xml"), ("png", "other.png")].into_iter().enumerate()
+            .filter_map(|(w, (rd, name))| prepare(&d, &big, &prog, rd, "none", pre, name, format!("filerace:{w}"))).collect();
+        run_together(sink, &big, &prog, calls);
+        let _ = std::fs::remove_dir_all(&d);
+    }
+    let _ = std::fs::remove_dir_all(&dir);
+}
